@@ -326,7 +326,7 @@ class ResizingOperator(Operator):
                 if (ran.is_uniform_byaxis[i] and
                     domain.is_uniform_byaxis[i] and
                         not np.isclose(ran.cell_sides[i],
-                                       domain.cell_sides[i])):
+                                       domain.cell_sides[i], atol=0)):
                     raise ValueError(
                         'in axis {}: cell sides of domain and range differ '
                         'significantly: (difference {})'
